@@ -549,7 +549,271 @@ func derivedFlagsFresh(c *Ctx, rule string) {
 				fmt.Sprintf("%s: .%s is computed from .%s, but .%s is assigned again afterwards (%s) and the flag is not recomputed: the formatter writes the final .%s using a decision taken on an earlier text (e.g. a value whose quotes only appear after decoding is wrapped in the wrong quote character and no longer parses)", body.name, d.flag, d.from, d.from, stale, d.from))
 		}
 	}
+	// the same staleness with the flag carried by something else: the node's text field receives a TRANSFORMED value
+	// (Y.F = g(A), A not Y.F itself) while the node's flag is decided on A — directly, through a boolean local or the
+	// flag of another struct, or as a second result of the helper that produced A.
+	helperDerives := func(call *ast.CallExpr, i, j int) bool {
+		// result j of the called package function is computed from its result i
+		fn := calleeOf(info, call)
+		if fn == nil || fn.Pkg() != pp.Types {
+			return false
+		}
+		for _, hfd := range allFuncDecls(pp) {
+			if info.Defs[hfd.Name] != types.Object(fn) || hfd.Body == nil {
+				continue
+			}
+			var resNames []types.Object
+			if hfd.Type.Results != nil {
+				for _, f := range hfd.Type.Results.List {
+					for _, nm := range f.Names {
+						resNames = append(resNames, info.Defs[nm])
+					}
+				}
+			}
+			mentionsObj := func(e ast.Expr, ob types.Object) bool {
+				hit := false
+				ast.Inspect(e, func(m ast.Node) bool {
+					if id, ok := m.(*ast.Ident); ok && ob != nil && info.ObjectOf(id) == ob {
+						hit = true
+					}
+					return !hit
+				})
+				return hit
+			}
+			derives := false
+			ast.Inspect(hfd.Body, func(m ast.Node) bool {
+				switch st := m.(type) {
+				case *ast.ReturnStmt:
+					if i < len(st.Results) && j < len(st.Results) {
+						if id, ok := ast.Unparen(st.Results[i]).(*ast.Ident); ok {
+							if _, isVar := info.ObjectOf(id).(*types.Var); isVar && mentionsObj(st.Results[j], info.ObjectOf(id)) {
+								derives = true
+							}
+							// … or through a boolean local assigned from an expression over result i's variable
+							if jid, ok := ast.Unparen(st.Results[j]).(*ast.Ident); ok {
+								ast.Inspect(hfd.Body, func(q ast.Node) bool {
+									if as, ok := q.(*ast.AssignStmt); ok && len(as.Lhs) == len(as.Rhs) {
+										for k, l := range as.Lhs {
+											if lid, ok := l.(*ast.Ident); ok && info.ObjectOf(lid) == info.ObjectOf(jid) && mentionsObj(as.Rhs[k], info.ObjectOf(id)) {
+												derives = true
+											}
+										}
+									}
+									return true
+								})
+							}
+						}
+					}
+				case *ast.AssignStmt:
+					if i < len(resNames) && j < len(resNames) && len(st.Lhs) == len(st.Rhs) {
+						for k, l := range st.Lhs {
+							if lid, ok := l.(*ast.Ident); ok && info.ObjectOf(lid) == resNames[j] && mentionsObj(st.Rhs[k], resNames[i]) {
+								derives = true
+							}
+						}
+					}
+				}
+				return true
+			})
+			return derives
+		}
+		return false
+	}
+	np := 0
+	for _, sc := range fileScopes(pp) {
+		name := pp.PkgPath + "." + sc.Name.Name
+		if sc.Recv != nil {
+			name = funcKey(pp, sc)
+		}
+		type fieldStore struct {
+			base  types.Object
+			field string
+			lhs   *ast.SelectorExpr
+			as    *ast.AssignStmt
+			idx   int
+		}
+		var stores []fieldStore
+		ast.Inspect(sc.Body, func(x ast.Node) bool {
+			as, ok := x.(*ast.AssignStmt)
+			if !ok {
+				return true
+			}
+			for i, l := range as.Lhs {
+				if se, ok := ast.Unparen(l).(*ast.SelectorExpr); ok {
+					if bid, ok := ast.Unparen(se.X).(*ast.Ident); ok {
+						stores = append(stores, fieldStore{info.ObjectOf(bid), se.Sel.Name, se, as, i})
+					}
+				}
+			}
+			return true
+		})
+		rhsOf := func(st fieldStore) ast.Expr {
+			if len(st.as.Rhs) == len(st.as.Lhs) {
+				return st.as.Rhs[st.idx]
+			}
+			return nil
+		}
+		for _, tf := range stores {
+			// Y.F = g(A): a string field assigned the result of a call over A (an identifier or X.F'), A ≠ Y.F
+			ft := info.TypeOf(tf.lhs)
+			r := rhsOf(tf)
+			if ft == nil || ft.String() != "string" || r == nil {
+				continue
+			}
+			gcall, ok := ast.Unparen(r).(*ast.CallExpr)
+			if !ok || len(gcall.Args) != 1 {
+				continue
+			}
+			if tv, isConv := info.Types[gcall.Fun]; isConv && tv.IsType() {
+				continue
+			}
+			aKey := types.ExprString(ast.Unparen(gcall.Args[0]))
+			if aKey == types.ExprString(tf.lhs) {
+				continue
+			}
+			switch ast.Unparen(gcall.Args[0]).(type) {
+			case *ast.Ident, *ast.SelectorExpr:
+			default:
+				continue
+			}
+			// (a field of a carrier struct is the same field in whichever function literal of the package it is written)
+			fieldOf := func(ex ast.Expr) types.Object {
+				if se, ok := ast.Unparen(ex).(*ast.SelectorExpr); ok {
+					if sel, ok := info.Selections[se]; ok && sel.Kind() == types.FieldVal {
+						if _, local := ast.Unparen(se.X).(*ast.Ident); local {
+							return sel.Obj()
+						}
+					}
+				}
+				return nil
+			}
+			keyField := map[string]types.Object{aKey: fieldOf(gcall.Args[0])}
+			mentionsKey := func(e ast.Expr, key string) bool {
+				hit := false
+				ast.Inspect(e, func(m ast.Node) bool {
+					if ex, ok := m.(ast.Expr); ok {
+						switch ex.(type) {
+						case *ast.Ident, *ast.SelectorExpr:
+							if types.ExprString(ex) == key {
+								hit = true
+							}
+							if kf := keyField[key]; kf != nil && key != types.ExprString(tf.lhs) && fieldOf(ex) == kf {
+								hit = true
+							}
+						}
+					}
+					return !hit
+				})
+				return hit
+			}
+			// the flags of the same node
+			for _, bf := range stores {
+				if bf.base != tf.base || bf.field == tf.field {
+					continue
+				}
+				bt := info.TypeOf(bf.lhs)
+				if bt == nil || bt.String() != "bool" {
+					continue
+				}
+				// decided on A?
+				var decidedOn func(e ast.Expr, depth int) bool
+				decidedOn = func(e ast.Expr, depth int) bool {
+					if e == nil || depth > 3 {
+						return false
+					}
+					if mentionsKey(e, aKey) {
+						return true
+					}
+					// boolean carriers: locals and fields of other structs assigned in this scope
+					found := false
+					ast.Inspect(e, func(m ast.Node) bool {
+						ex, ok := m.(ast.Expr)
+						if !ok {
+							return true
+						}
+						switch ex.(type) {
+						case *ast.Ident, *ast.SelectorExpr:
+						default:
+							return true
+						}
+						if t := info.TypeOf(ex); t == nil || t.String() != "bool" {
+							return true
+						}
+						key := types.ExprString(ex)
+						if key == types.ExprString(bf.lhs) {
+							return true
+						}
+						carrierField := fieldOf(ex)
+						searchIn := []ast.Node{sc.Body}
+						if carrierField != nil {
+							searchIn = nil
+							for _, other := range fileScopes(pp) {
+								searchIn = append(searchIn, other.Body)
+							}
+						}
+						for _, root := range searchIn {
+							ast.Inspect(root, func(q ast.Node) bool {
+								as, ok := q.(*ast.AssignStmt)
+								if !ok {
+									return true
+								}
+								for k, l := range as.Lhs {
+									if carrierField != nil {
+										if fieldOf(l) != carrierField || ast.Unparen(l) == ast.Expr(bf.lhs) {
+											continue
+										}
+									} else if types.ExprString(ast.Unparen(l)) != key {
+										continue
+									}
+									if len(as.Lhs) == len(as.Rhs) {
+										if decidedOn(as.Rhs[k], depth+1) {
+											found = true
+										}
+									}
+								}
+								return true
+							})
+						}
+						return !found
+					})
+					return found
+				}
+				stale := false
+				if r2 := rhsOf(bf); r2 != nil {
+					stale = decidedOn(r2, 0)
+				} else if len(bf.as.Rhs) == 1 {
+					// a tuple from a helper: is A assigned by the same tuple, and does the helper derive the flag from it?
+					if hc, ok := ast.Unparen(bf.as.Rhs[0]).(*ast.CallExpr); ok {
+						for k, l := range bf.as.Lhs {
+							if types.ExprString(ast.Unparen(l)) == aKey && helperDerives(hc, k, bf.idx) {
+								stale = true
+							}
+						}
+					}
+				}
+				if !stale {
+					continue
+				}
+				// re-derived from the final Y.F afterwards?
+				re := false
+				for _, bf2 := range stores {
+					if bf2.base == bf.base && bf2.field == bf.field && bf2.as.Pos() > tf.as.Pos() {
+						if r3 := rhsOf(bf2); r3 != nil && mentionsKey(r3, types.ExprString(tf.lhs)) {
+							re = true
+						}
+					}
+				}
+				np++
+				c.check(re, rule, fmt.Sprintf("%s|%s-decided-on-what-%s-holds", name, bf.field, tf.field), c.pos(bf.as.Pos()), "."+bf.field+" is recomputed from the final ."+tf.field,
+					fmt.Sprintf("%s: .%s is decided on %s, but .%s is assigned %s — a transformed text. The formatter prints .%s and chooses by .%s: a value whose quotes only appear after decoding (&quot;) is wrapped in the wrong quote character, and the formatted file no longer parses", name, bf.field, aKey, tf.field, types.ExprString(r), tf.field, bf.field))
+			}
+		}
+	}
+	c.count("flags_decided_on_a_pre-image", np)
 	c.count("derived_flag_assignments", n)
+	if n == 0 && np > 0 {
+		return // the derivation exists, in the carried form: its anchor is the obligation just recorded
+	}
 	c.floor(rule, 1)
 }
 
